@@ -43,7 +43,9 @@ PatchTable == <<
   P(<< [op |-> "add", path |-> <<47,97,47,45>>, value |-> Obj(<<Mem(<<107>>, Arr(<<N1, N2>>))>>)],
        [op |-> "move", from |-> <<47,97,47,48>>, path |-> <<47,109>>] >>),                                \* 5 add /a/- {"k":[1,2]} ; move /a/0 -> /m
   P(<< [op |-> "test", path |-> <<47,97>>, value |-> N2],
-       [op |-> "add", path |-> <<47,113>>, value |-> N1] >>) >>                                           \* 6 test /a 2 ; add /q 1
+       [op |-> "add", path |-> <<47,113>>, value |-> N1] >>),                                            \* 6 test /a 2 ; add /q 1
+  P(<< [op |-> "test", path |-> <<47>>, value |-> Obj(<<Mem(ca, Arr(<<N1, Null>>)), Mem(cb, Obj(<<>>))>>)] >>) >>  \* 7 test "/" ... : an empty
+                                      \* reference token is outside C01's domain - its RESULT is not specified, purity still is
 \* merge patches
 MergeTable == <<
   Obj(<<Mem(ca, Null), Mem(cc, Obj(<<Mem(cd, N1)>>))>>),              \* 1 {"a":null,"c":{"d":1}}
@@ -58,7 +60,7 @@ C3(api, a, b, o) == [api |-> api, a |-> a, b |-> b, o |-> o]
 
 SmallCalls ==
      { C3("Apply", d, p, 1) : d \in {1, 2}, p \in {1, 2, 3} }
-  \cup { C3("Apply", 1, 2, 2), C3("Apply", 4, 1, 1), C3("ApplyIndent", 1, 5, 1) }
+  \cup { C3("Apply", 1, 2, 2), C3("Apply", 4, 1, 1), C3("ApplyIndent", 1, 5, 1), C3("Apply", 1, 7, 1) }
   \cup { C2("DecodePatch", 4, 0), C2("DecodePatch", 2, 0) }
   \cup { C2("MergePatch", 1, 1), C2("MergePatch", 1, 4), C2("MergePatch", 3, 2) }
   \cup { C2("MergeMergePatches", 1, 2), C2("CreateMergePatch", 1, 3), C2("CreateMergePatch", 1, 4) }
@@ -66,7 +68,7 @@ SmallCalls ==
 FullCalls == SmallCalls
   \cup { C3("Apply", d, p, o) : d \in {1, 2, 3, 5}, p \in {1, 2, 3, 5, 6}, o \in {1, 2} }
   \cup { C3("ApplyIndent", d, p, 1) : d \in {1, 2, 5}, p \in {1, 2} }
-  \cup { C2("DecodePatch", p, 0) : p \in 1..6 }
+  \cup { C2("DecodePatch", p, 0) : p \in 1..7 } \cup { C3("Apply", 2, 7, 1), C3("Apply", 5, 7, 2) }
   \cup { C2("MergePatch", d, m) : d \in {1, 3, 4, 5}, m \in 1..4 }
   \cup { C2("MergeMergePatches", m, n) : m \in {1, 2}, n \in 1..4 }
   \cup { C2("CreateMergePatch", d, e) : d \in {1, 3, 5, 2}, e \in {1, 3, 5} }
@@ -88,7 +90,7 @@ Result(c) ==
          IF ~p.ok THEN Fail("BadPatch")
          ELSE IF d.t = "malformed" THEN Fail("BadDoc")
          ELSE LET r == RunAll(d, p.ops, Opt(c.o), [lo |-> 0, hi |-> 0], 1) IN
-              IF r.k = "ok" THEN Val(r.v) ELSE Fail(r.cls)
+              IF r.k = "ok" THEN Val(r.v) ELSE IF r.k = "dc" THEN Fail("dc") ELSE Fail(r.cls)
     [] c.api = "DecodePatch" -> Flag(PatchTable[c.a].ok)
     [] c.api = "MergePatch" ->
          LET d == DocTable[c.a]  m == MergeTable[c.b] IN
